@@ -19,6 +19,7 @@ def modelLine (line : String) : String :=
       else if w.startsWith "rng." then Driver.C04.model ws
       else if w.startsWith "uid." then Driver.C20.model ws
       else if w.startsWith "ring." then Driver.C17.model ws
+      else if w.startsWith "elect." then Driver.C17.modelE ws
       else none
     match r with
     | some s => s
